@@ -112,6 +112,8 @@ def cases(tier, seed):
     for sh in ("cylinder", "spheroid"):
         out.append({"id": "volume-anchor:%s" % sh, "kind": "volume",
                     "shape": sh})
+    # lengths written as integers (nanometres) and angles as small integers
+    out.append({"id": "integer-typed-arguments", "kind": "inttypes"})
     # orientation anchor: in the same limit the amplitude is the form factor
     # of the shape, F(q . axis): it ties the Euler angles of the scatterer
     # to the documented z-y-z rotation in HoloPy's frame (z towards the
@@ -403,7 +405,11 @@ def _run_sym(case, ck):
 SPECIAL_R = [(1.0, 1.0, 0.75, 1.5), (1.0, 1.0, 0.25, 1.5),
              (0.5, 1.0, 0.125, 1.33), (0.66, 1.0, 0.165, 1.59),
              (1.0, 1.0, 1.0 / 6.0, 1.5), (1.0, 1.0, 0.1875, 4.0 / 3.0),
-             (1.0, 1.0, 0.5, 1.5), (1.0, 1.0, 1.0, 1.5)]
+             (1.0, 1.0, 0.5, 1.5), (1.0, 1.0, 1.0, 1.5),
+             # m k r = 7 pi to the last bit: j_0 of the interior argument
+             # vanishes and a ratio of the downward recursion is 1 / 0
+             (1.0, 1.0, 1.75, 2.0), (0.5, 1.0, 0.7, 2.5),
+             (0.8, 1.0, 1.75, 1.6)]
 
 
 def _run_spherespecial(case, ck):
@@ -586,6 +592,57 @@ def _run_orient(case, ck):
     return digest(fp_values(S))
 
 
+def _run_inttypes(case, ck):
+    import warnings
+    from holopy.core.metadata import detector_grid
+    from holopy.scattering import calc_holo, Spheroid, Sphere, Tmatrix
+    det = detector_grid((4, 4), 300)
+    fps = []
+
+    def holo(scat):
+        with warnings.catch_warnings():
+            warnings.simplefilter("ignore")
+            return calc_holo(det, scat, 1.33, 660, (1, 0),
+                             theory=Tmatrix()).values
+    ref = holo(Spheroid(n=1.59, r=(400.0, 600.0), rotation=(0.0, 1.0, 2.0),
+                        center=(500.0, 400.0, 5000.0)))
+    ck.trans += 1
+    for dt in ("int16", "uint16", "int32", "int64", "float32"):
+        for what, scat in (
+                ("semi-axes", lambda: Spheroid(
+                    n=1.59, r=(np.array(400).astype(dt),
+                               np.array(600).astype(dt)),
+                    rotation=(0.0, 1.0, 2.0),
+                    center=(500.0, 400.0, 5000.0))),
+                ("angles", lambda: Spheroid(
+                    n=1.59, r=(400.0, 600.0),
+                    rotation=tuple(np.array([0, 1, 2]).astype(
+                        "int8" if dt == "int16" else dt)),
+                    center=(500.0, 400.0, 5000.0)))):
+            try:
+                h = holo(scat())
+                ck.trans += 1
+            except Exception as e:
+                ck.true("integer-typed-arguments", False, "Spheroid with %s "
+                        "as %s raised %s: %s" % (what, dt, type(e).__name__,
+                                                 str(e)[:80]))
+                continue
+            e = float(np.abs(h - ref).max())
+            ck.true("integer-typed-arguments", e <= 1e-6, "Spheroid with "
+                    "%s as %s: hologram differs from the one with Python "
+                    "floats by %.3g" % (what, dt, e))
+    sref = holo(Sphere(n=1.59, r=500.0, center=(500.0, 400.0, 5000.0)))
+    for dt in ("int16", "uint16", "int32"):
+        h = holo(Sphere(n=1.59, r=np.array(500).astype(dt)[()],
+                        center=(500.0, 400.0, 5000.0)))
+        ck.trans += 1
+        e = float(np.abs(h - sref).max())
+        ck.true("integer-typed-arguments", e <= 1e-6, "Sphere(r=%s(500)) "
+                "under Tmatrix differs from r=500.0 by %.3g" % (dt, e))
+    fps.append(fp_values(ref))
+    return digest(*fps)
+
+
 def _run_volume(case, ck):
     import warnings
     from holopy.core.metadata import detector_points
@@ -634,6 +691,6 @@ def run_case(case):
           "sym": _run_sym, "history": _run_history,
           "spherespecial": _run_spherespecial,
           "baddims": _run_baddims,
-          "volume": _run_volume,
+          "volume": _run_volume, "inttypes": _run_inttypes,
           "orient": _run_orient}[case["kind"]](case, ck)
     return ck.result(fp=fp)
